@@ -85,7 +85,8 @@ def run(ctx, rep):
     # every MIR caller of the primitives is a Compiler method seen by CSA
     for prim in ('emit_opcode', 'emit_u8', 'emit_u16', 'change_jump_operand_at', 'remove_last_instruction'):
         for f, b, t in F.callers_of(lambda p: p == 'compiler::Compiler::' + prim):
-            m = f.path.split('::')[-1]
+            inl = f.blocks[b].get('inl')
+            m = (inl[-1] if inl else f.path).split('::')[-1]      # a spliced-in helper is where the call is written
             rep.ob(f.path.startswith('compiler::Compiler::') and m in R['sites'], 'R02.2', f.path, 'calls ' + prim,
                    'code-buffer primitive called from a function CSA analyses', span_loc(t['span']))
     rep.count('emit_sites', total)
